@@ -116,10 +116,12 @@ func (p *ClonePool) ExtractPendingRelease() []Value {
 func (p *ClonePool) ExtractAllMarkedFinalize() []Value {
 	p.mx.Lock()
 
-	// Disregard the pendingFinalize list as all values are still present in the
-	// weakrefs map.
+	// Start from the values whose go finalizer has already run and which are
+	// waiting for their Lua finalizer (they are flagged as finalized in the
+	// register, so the loop below skips them), then add all the values in the
+	// register not yet finalized.
+	marked := p.pendingFinalize
 	p.pendingFinalize = nil
-	var marked sortablePendingClones
 	for k, c := range p.cloneRegister {
 		if !c.hasFlag(wrFinalized) {
 			c.setFlag(wrFinalized)
